@@ -898,7 +898,11 @@ func (r *replayer) binary(h *Harness, all []*Harness) (string, error) {
 	ovFile := filepath.Join(r.dir, "overlay_"+sanitize(h.Pkg)+".json")
 	os.WriteFile(ovFile, ovJSON, 0644)
 	bin := filepath.Join(r.dir, sanitize(h.Pkg)+".test")
-	cmd := exec.Command("go", "test", "-c", "-vet=off", "-overlay", ovFile, "-o", bin, "./"+h.Pkg)
+	args := []string{"test", "-c", "-vet=off", "-overlay", ovFile, "-o", bin, "./" + h.Pkg}
+	if os.Getenv("GOBMC_RACE") != "" {
+		args = append([]string{"test", "-race"}, args[1:]...) // debugging aid for the harness models
+	}
+	cmd := exec.Command("go", args...)
 	cmd.Dir = *flagRepo
 	cmd.Env = goEnv()
 	out, err := cmd.CombinedOutput()
